@@ -212,6 +212,20 @@ def c08_extra(pid, tier, seed):
                                  'r.messages in /repo/log_reader.go are not those coq/ReaderGC.v was transcribed from (theorems '
                                  'C08_reads_never_see_a_closed_mapping / C08_reading_means_loaded); the concurrent runs of this check (readers '
                                  'against GC included) found no failing history\n# differing methods:\n# %s\n' % '\n# '.join(diff[:8] or [r.stderr[-400:]])))
+        # the same for the lock protocol of log.go (coq/Conc.v): lock operations of every method of *log
+        LOCKARGS = ['locks', os.path.join(kv.REPO, 'log.go'), 'log', 'writerMu,readersMu,deleteMu',
+                    'findDeleteReader,Rewrite,Delete,Publish,NeedsRollover,ReopenReader,Sync,append,openWriter,Consume,Get,GetByKey,'
+                    'GetByTime,ConsumeByKey,Stat,GC,GetNextOffset,Remove']
+        r = subprocess.run([ps] + LOCKARGS, stdout=subprocess.PIPE, stderr=subprocess.PIPE, text=True, timeout=120)
+        want = [l.rstrip('\n') for l in open(os.path.join(kv.VERIF, 'lib', 'log_lock_protocol.txt')) if l.strip() and not l.startswith('#')]
+        got = [l for l in r.stdout.split('\n') if l.strip()]
+        nlockm = len(got)
+        if r.returncode != 0 or got != want:
+            diff = [g for g in got if g not in want] + ['(missing) ' + w for w in want if w not in got]
+            viol.append(('corr', '# correspondence corr:C08/lock-protocol no longer checks: the operations on writerMu / readersMu / deleteMu in '
+                                 '/repo/log.go are not those coq/Conc.v was transcribed from (theorems C08_invariant / C08_linearizable); the '
+                                 'placements and the concurrent runs of this check found no failing history\n# differing methods:\n# %s\n'
+                         % '\n# '.join(diff[:8] or [r.stderr[-400:]])))
         races = [f for f in os.listdir(d) if f.startswith('race')]
         for f in races[:2]:
             txt = open(os.path.join(d, f)).read()
@@ -221,7 +235,7 @@ def c08_extra(pid, tier, seed):
                              placements_compared_with_protocol_model=ncmp, of_which_model_outcome_unique=nsingle,
                              free_running_histories=nfree, start_of_life_stress_iterations=4 * stress_iters, histories_linearizable=nlin, placements_with_point_hit=nhit,
                              linearizability_search_timeouts=nto, race_reports=len(races),
-                             reader_protocol_methods_compared_with_ReaderGC=nproto,
+                             reader_protocol_methods_compared_with_ReaderGC=nproto, log_methods_lock_sequence_compared_with_Conc=nlockm,
                              rule='placements: every call of a small alphabet - Publish, Consume, Get, Delete, NextOffset, Sync, GC, Stat, GetByTime, GetByKey, ConsumeByKey - (and sampled pairs) inside the windows publish.written, '
                                   'publish.rolled, delete.found/synced/rewritten, consume.indexed, gc.unload of a held call, on 1-4 segment '
                                   'logs; free-running: 2-8 goroutines x 15-60 random calls, rollover 60-400; all under -race; every recorded '
